@@ -100,7 +100,17 @@ CHECKS = {
    note=TB + 'Python\'s re.search for a newline and str slicing are modelled; the claim that the failure index never lies '
         'beyond the furthest failure is carried by the refinement theorem of C01 (failure position), not by this check.',
    technique='Coq proof over a model regenerated from source + tie lemmas; differential sweep model vs runtime',
-   ref='DESIGN.md §6 C09'), 'C15': dict(
+   ref='DESIGN.md §6 C09'), 'C14': dict(
+   text='Coq theorems on a model of ParsedObject.__eq__/__hash__/_hash over nested values (scalars with Python\'s == quotiented, '
+        'lists, tuples, objects): C14_eq_iff (equal iff same class and pairwise equal fields), C14_eq_refl/sym/trans (equivalence '
+        'relation), C14_eq_implies_hash (equal objects have equal hashes, also with unhashable list members and tuples containing '
+        'them, for any builtin hash that respects == on scalars), C14_replace. Tied to /repo by comparing == of the real objects '
+        'with the extracted py_eq on random pairs, and the remaining API (_asdict order, _replace, copy.deepcopy, pickle round '
+        'trip for the named grammar, eval(repr(o))) is judged directly on the implementation.',
+   note=TB + 'partial: dict-valued fields, deepcopy/pickle (Python copy protocol) and repr round trip are decided by differential runs only, not by a theorem; floats are excluded.',
+   technique='Coq proof (== is an equivalence, hash respects it) + differential correspondence and API-level checks on random object trees',
+   ref='DESIGN.md §6 C14'),
+ 'C15': dict(
    text='Coq theorems over trees whose nodes carry CPython identities (any assignment): C15_visit_is_dfs (the explicit-stack '
         'loop of visit = recursive preorder with first-occurrence de-duplication of objects, through fields, lists, tuples, '
         'dict values), C15_visit_once (NoDup, nothing already visited), C15_traverse_spec (the explicit-stack loop of traverse '
@@ -110,7 +120,18 @@ CHECKS = {
         'events against the extracted loops and the extracted recursive specifications; depth up to 10^5 on the implementation.',
    note=TB + 'absence of RecursionError is an observation on the implementation (the Python stack is not modelled).',
    technique='Coq proof (explicit-stack loop = recursive spec) + differential correspondence on random trees',
-   ref='DESIGN.md §6 C15'),
+   ref='DESIGN.md §6 C15'), 'C16': dict(
+   text='Coq theorems on a model of transform/_transform over trees with identities and metadata, threading the supply of fresh '
+        'identities and the callback log: C16_identity (identity callback: same shape, classes and metadata; the very same '
+        'object unless a list sits below it), C16_once (the callbacks are applied exactly once per object occurrence of the '
+        'input, whatever they return), C16_children_first (the parent is rebuilt from its transformed children and passed to the '
+        'callbacks last), C16_metadata_inherited / C16_metadata_own_kept, C16_chain_of_identities. Correspondence: random trees x '
+        'chains of 1-3 callbacks from a closed family (replace by fresh object with/without metadata, by scalar, by list, by a '
+        '_replace copy, by an existing child), result tree with its identity relation to the input, metadata of every node, '
+        'callback log, deep snapshot of the input before and after.',
+   note=TB + 'a callback returning an input node with empty metadata makes transform write to that node: counted in the evidence, not judged (the property speaks of replacement objects).',
+   technique='Coq proof on a functional model with identities + differential correspondence on random trees and callback chains',
+   ref='DESIGN.md §6 C16'),
 }
 
 PENDING = 'check under construction in this session (model/spec exist as design spikes under notes/spike; not yet wired into a registered check)'
